@@ -16,9 +16,12 @@ IMPORTS = {
     'other': "import {{ defineComponent }} from 'other';\n", 'ns': "import * as Vue from 'vue';\n", 'default': "import defineComponent from 'vue';\n",
     'none': '', 'local': 'function defineComponent(a: any, b?: any) {{ return a }}\n', 'vue2': "import {{ ref, defineComponent, h }} from 'vue';\n",
     'symsrc': "import {{ defineComponent }} from '{S}';\n", 'late': '',
+    'vue-prefix': "import {{ defineComponent }} from 'vue-demi';\n", 'vue-scope': "import {{ defineComponent }} from '@vue/runtime-core';\n", 'vue-upper': "import {{ defineComponent }} from 'Vue';\n",
+    'vue-suffix': "import {{ defineComponent }} from 'petite-vue';\n",
 }
 CALLEE = {'vue': 'defineComponent', 'alias': 'dc', 'renamed': 'defineComponent', 'other': 'defineComponent', 'ns': 'Vue.defineComponent', 'default': 'defineComponent',
-          'none': 'defineComponent', 'local': 'defineComponent', 'vue2': 'defineComponent', 'symsrc': 'defineComponent', 'late': 'defineComponent'}
+          'none': 'defineComponent', 'local': 'defineComponent', 'vue2': 'defineComponent', 'symsrc': 'defineComponent', 'late': 'defineComponent',
+          'vue-prefix': 'defineComponent', 'vue-scope': 'defineComponent', 'vue-upper': 'defineComponent', 'vue-suffix': 'defineComponent'}
 SETUP = {'typed': "(props: {{ a: string }}, ctx: SetupContext<{{ (e: 'x'): void }}>) => () => null", 'fn': 'function (props: {{ a: string }}) {{ return () => null }}',
          'untyped': '() => () => null', 'obj': '{{ setup() {{ return () => null }} }}', 'objn': "{{ name: 'Own', setup() {{ return () => null }} }}", 'ident': 'setupFn'}
 OPTIONS = {
@@ -185,7 +188,7 @@ def jobs(tier):
                     if tier == 'quick' and imp == 'vue' and d not in ('const', 'default', 'assign', 'shadow', 'firstspread', 'stmt') and op not in ('none', 'name', 'spread2', 'asconst', 'paren'):
                         continue
                     out.append({'import': imp, 'setup': st, 'options': op, 'decl': d})
-    for n in ([3] if tier == 'quick' else [2, 3, 4, 5]):
+    for n in ([3, 4, 6] if tier == 'quick' else [2, 3, 4, 5, 6, 8]):
         for op in ('none', 'name', 'ident'):
             out.append({'import': 'symsrc', 'setup': 'typed', 'options': op, 'decl': 'const', 'srclen': n})
     seen = set(); res = []
